@@ -464,8 +464,9 @@ static int64_t Slice_Arg(int part, size_t n, var arg) {
   int64_t a = c_int(arg);
   
   if (part isnt 2) {
-    a = a < 0 ? n+a : a;
-    a = a > n ? n   : a;
+    int64_t m = (int64_t)n;
+    a = a < 0 ? m+a : a;
+    a = a > m ? m   : a;
     a = a < 0 ? 0   : a;
   }
   
